@@ -43,7 +43,7 @@ def cases(draw, big=False):
                 storage2=draw(st.sampled_from(["f8", "f4", "i2", "i2b"])),
                 # particles that die after the forcing was evaluated and are removed from the state (what a sparse
                 # output record does) before the tracker asks for the velocity of the survivors; 0 = nobody
-                drop=draw(st.sampled_from([0, 0, 0b0101101, 0b1000000000001, 0b11])),
+                drop=draw(st.sampled_from([0, 0, 0b0101101, 0b1000000000001, 0b11])), zhist=draw(st.booleans()),
                 # vertical set-up given explicitly in the configuration (Vinfo) and deliberately different from
                 # what the file records: other transform, other critical depth, stretching from parameters
                 vinfo=draw(st.one_of(st.none(), st.none(), st.fixed_dictionaries(dict(
@@ -146,8 +146,17 @@ def ladim_sample(d, fname, sub, case, X, Y, Z, ffile=None, nupdates=1):
         fconf["extra_forcing"] = list(case["scalars"])
     modules["forcing"] = init_module("forcing", fconf, modules)
     state, timer, force = modules["state"], modules["time"], modules["forcing"]
-    state.append(X=X, Y=Y, Z=Z)
-    for _ in range(nupdates):
+    zhist = bool(case.get("zhist")) and nupdates > 1
+    if zhist:
+        # depth history: the particles sit at mid-depth during the earlier steps and are moved to their final
+        # depths (incl. above the top / below the bottom level) just before the last forcing update
+        J0, I0 = np.floor(Y + 0.5).astype(int), np.floor(X + 0.5).astype(int)
+        state.append(X=X, Y=Y, Z=0.5 * np.asarray(case["_h"])[J0, I0])
+    else:
+        state.append(X=X, Y=Y, Z=Z)
+    for k_ in range(nupdates):
+        if zhist and k_ == nupdates - 1:
+            state["Z"] = Z
         timer.update()
         force.update()
     keep = np.ones(len(X), bool)
@@ -217,6 +226,9 @@ def oracle(case) -> core.CaseResult:
             gfile = ffile = d / "f.nc"
             dec = roms.write_roms(gfile, G, times, U, V, extra=extra, storage=storage)
         X, Y, Z = positions(case, G, sub_eff)
+        case = dict(case, _h=G["h"])
+        if case.get("zhist") and fr == 1:
+            res.cls("depth_changed_before_the_last_update")
         nup = 1 if fr == 0 else 5   # Model.update order: clock, forcing; step 4 is the second frame
         try:
             got = ladim_sample(d, gfile, sub_cfg, case, X, Y, Z, ffile=ffile, nupdates=nup)
